@@ -3,8 +3,10 @@
 package tb
 
 import (
+	"context"
 	"encoding/json"
 	"fmt"
+	"github.com/simpleiot/simpleiot/store"
 	"math"
 	"os"
 	"path/filepath"
@@ -12,6 +14,7 @@ import (
 	"strings"
 	"sync"
 	"testing"
+	"testing/synctest"
 	"time"
 
 	"github.com/nats-io/nats.go"
@@ -462,6 +465,7 @@ func TestC20(t *testing.T) {
 		if i, _ := mc.Shard(); i == 0 {
 			c20RacePart(r)
 			c20ServerStopPart(r)
+			c20StopAroundStartup(r, t)
 		}
 		r.Assume("a cooperative scheduler cannot see data races: the race clause is decided by the separate free-running `go test -race` pass (part race-pass, sampling, reported as such)")
 		r.Assume("goroutine interleavings between two scheduling points are not enumerated; SQLite busy-waits sleep on the virtual clock")
@@ -470,6 +474,123 @@ func TestC20(t *testing.T) {
 
 // c20RacePart folds in the free-running `go test -race` pass that run.sh
 // executed before this binary (TestC20Race in a -race build without gates).
+// c20StopAroundStartup: Store.Stop issued at every position around the start of Store.Run (an instance
+// whose neighbour actor fails at once is stopped while it is still starting).
+func c20StopAroundStartup(r *mc.Report, t *testing.T) {
+	p := r.Part("stop-around-startup", "Store.Stop at each of 4 positions around the start of Store.Run (before the Run goroutine exists; right after `go Run()`; once Run is parked in its loop; after WaitStart and one acknowledged write) x 2 files (fresh, already initialised): Run returns (30 s of virtual time), the file opens again with the same root and holds the acknowledged write")
+	for _, initialised := range []bool{false, true} {
+		for pos := 0; pos < 4; pos++ {
+			p.Case(true)
+			p.Step(1)
+			if key, problem := c20StartupCase(t, initialised, pos); problem != "" {
+				p.Violation("stop-around-startup/"+key, fmt.Sprintf("%s (file initialised before: %v)", problem, initialised), map[string]any{"position": pos, "initialised": initialised})
+			}
+		}
+	}
+	p.Done()
+}
+
+func c20StartupCase(t *testing.T, initialised bool, pos int) (key, problem string) {
+	{
+		{
+			bubble(t, func() {
+				c20Seq++
+				url := fmt.Sprintf("nats://c20s-%d:4222", c20Seq)
+				bus := nats.NewBus(url, nats.Async)
+				defer nats.RemoveBus(url)
+				dir, err := os.MkdirTemp(mc.ScratchDir(), "c20s-")
+				if err != nil {
+					problem, key = "HARNESS: "+err.Error(), "harness"
+					return
+				}
+				defer os.RemoveAll(dir)
+				file := filepath.Join(dir, "db")
+				wantRoot := ""
+				if initialised {
+					in0, err := sh.New(sh.Opts{File: file, NoTemplate: true, Mode: nats.Async, RootID: "rootS"})
+					if err != nil {
+						problem, key = "HARNESS: "+err.Error(), "harness"
+						return
+					}
+					wantRoot = in0.RootID
+					in0.Close()
+				}
+				stNc := bus.Connect()
+				st, err := store.NewStore(store.Params{File: file, Server: url, Nc: stNc, ID: "rootS"})
+				if err != nil {
+					problem, key = "HARNESS: NewStore: "+err.Error(), "harness"
+					return
+				}
+				done := make(chan error, 1)
+				run := func() { go func() { done <- st.Run() }() }
+				nc := bus.Connect()
+				wrote := false
+				switch pos {
+				case 0:
+					st.Stop(nil)
+					run()
+				case 1:
+					run()
+					st.Stop(nil)
+				case 2:
+					run()
+					synctest.Wait()
+					st.Stop(nil)
+				case 3:
+					run()
+					ctx, cancel := context.WithTimeout(context.Background(), 20*time.Second)
+					err := st.WaitStart(ctx)
+					cancel()
+					if err != nil {
+						problem, key = "store does not start: "+err.Error(), "store-does-not-start"
+						return
+					}
+					rn, err := client.GetRootNode(nc)
+					if err != nil {
+						problem, key = "root not readable after start: "+err.Error(), "request-failed/read"
+						return
+					}
+					if err := client.SendNodePoints(nc, rn.ID, data.Points{{Type: "startupw", Value: 5, Time: c20ts(1)}}, true); err != nil {
+						problem, key = "write after start refused: "+err.Error(), "request-failed/node-points"
+						return
+					}
+					wrote = true
+					st.Stop(nil)
+				}
+				select {
+				case <-done:
+				case <-time.After(30 * time.Second):
+					problem, key = fmt.Sprintf("Store.Run has not returned 30 s after Stop (Stop issued at position %d around the start of Run)", pos), "store-run-does-not-return"
+					return
+				}
+				nc.Close()
+				stNc.Close()
+				in2, err := sh.New(sh.Opts{File: file, NoTemplate: true, Mode: nats.Async, RootID: "rootS"})
+				if err != nil {
+					problem, key = "the file does not open again: "+err.Error(), "does-not-reopen"
+					return
+				}
+				defer in2.Close()
+				if wantRoot != "" && in2.RootID != wantRoot {
+					problem, key = fmt.Sprintf("root %q before, %q after", wantRoot, in2.RootID), "root-changed"
+					return
+				}
+				if wrote {
+					ns, err := client.GetNodes(in2.Nc, "root", "all", "", false)
+					if err != nil || len(ns) == 0 {
+						problem, key = fmt.Sprintf("root not readable after reopen: %v", err), "does-not-reopen"
+						return
+					}
+					if _, ok := c20Find(ns[0].Points, "startupw", ""); !ok {
+						problem, key = "the acknowledged write is missing after reopen", "acknowledged-write-lost"
+					}
+				}
+			})
+		}
+	}
+	return key, problem
+}
+
 // c20ServerStopPart folds in the result of the in-package test of server.Server (real nats.go, embedded
 // nats-server, real time; run by run.sh before this binary; see overlay/srvstop_test.go.txt).
 func c20ServerStopPart(r *mc.Report) {
@@ -583,6 +704,19 @@ func c20Triples(thorough bool) [][]int {
 }
 
 func init() {
+	// replay of the stop-around-startup part: all 8 cases again (they take a fraction of a second)
+	bodies["C20/stop-around-startup"] = func(t *testing.T) mc.Body {
+		return func(x *mc.X) mc.Outcome {
+			for _, initialised := range []bool{false, true} {
+				for pos := 0; pos < 4; pos++ {
+					if key, problem := c20StartupCase(t, initialised, pos); problem != "" {
+						return mc.Outcome{Violation: fmt.Sprintf("%s (file initialised before: %v)", problem, initialised), Key: "stop-around-startup/" + key}
+					}
+				}
+			}
+			return mc.Outcome{Obs: "8 cases"}
+		}
+	}
 	bodies["C20/schedules-p2"] = func(t *testing.T) mc.Body { return c20Body(t, c20Triples(true), false, 2) }
 	bodies["C20/schedules-p3"] = func(t *testing.T) mc.Body { return c20Body(t, c20Triples(false)[:4], false, 3) }
 	bodies["C20/shutdown-p1"] = func(t *testing.T) mc.Body { return c20Body(t, [][]int{{0, 1}, {0, 2}}, true, 1) }
